@@ -121,3 +121,7 @@ Definition fp8_rne_ok (F : fp8fmt) (mag c : N) : bool :=
 (* bfloat16: the value of magnitude code d is the float32 value of d<<16; 0x7F80 is infinity *)
 Definition bf16_rne_ok (mag c : N) : bool :=
   rne_spec (fun d => X32 (d * 65536)) 32640 32640 (X32 mag) c.
+
+(* an FP8 code that the decoder reads as NaN: exponent field all ones, mantissa not all ones *)
+Definition fp8_nan_code (F : fp8fmt) (c : N) : bool :=
+  ((c mod 128) / 2 ^ fM F =? f_emax F) && negb (c mod 2 ^ fM F =? f_mantmask F).
